@@ -209,6 +209,10 @@ class Tr:
     if eqo == "_StructMixin" and hasho == "Class" and cls.__name__ == "Class" and cfg.eq and "_name2item" in fields:
       h = [i for i in allidx if fields[i] != "_name2item"]
       return ".fields %s %s /- Class.__hash__ drops _name2item -/" % (lst(allidx), lst(h))
+    if eqo == "Class" and hasho == "Class" and cls.__name__ == "Class" and "_name2item" in fields:
+      # repaired code (fix: Class.__eq__ ignores the lookup cache): both leave out _name2item
+      h = [i for i in allidx if fields[i] != "_name2item"]
+      return ".fields %s %s /- Class.__eq__/__hash__ drop _name2item -/" % (lst(h), lst(h))
     if eqo == "_StructMixin" and not cfg.eq and hasho == cls.__name__ == "TypeDeclUnit":
       return ".identity /- eq=False, __hash__ = id(self) -/"
     self.notes.append("unknown __eq__/__hash__ providers for %s: %s/%s" % (cls.__name__, eqo, hasho))
